@@ -182,7 +182,9 @@ def main():
                             "disjoint" % oa, rc)
             if why is not None:
                 continue
-        cols = [(Fr(float(out[0, c])), Fr(float(out[1, c]))) for c in range(ncol)]
+        cols, nonfinite = C.finite_cols(out)
+        if nonfinite:
+            res.failure("param-not-finite", "%s (%s, %s): NaN / infinite parameter in %s" % (route, p["kind"], p["tag"], out.tolist()), rc)
         hits = [0] * len(iso.roots)
         unmatched = []
         for (s, t) in cols:
